@@ -599,8 +599,10 @@ func (vm *Thread) run() {
 
 			if !err.IsUndefined() {
 				vm.pop()
+				// rethrow returns only when it has found a catch entry
+				// and moved ip there, keep running
 				vm.rethrow(err, vm.BuildStackTracePrepend(stackTrace))
-				return
+				continue
 			}
 
 			vm.replace(result)
@@ -617,8 +619,10 @@ func (vm *Thread) run() {
 			stackTrace := promise.stackTrace
 			if !err.IsUndefined() {
 				vm.pop()
+				// rethrow returns only when it has found a catch entry
+				// and moved ip there, keep running
 				vm.rethrow(err, vm.BuildStackTracePrepend(stackTrace))
-				return
+				continue
 			}
 
 			vm.replace(result)
@@ -628,8 +632,10 @@ func (vm *Thread) run() {
 			result, stackTrace, err := promise.AwaitSync()
 			if !err.IsUndefined() {
 				vm.pop()
+				// rethrow returns only when it has found a catch entry
+				// and moved ip there, keep running
 				vm.rethrow(err, vm.BuildStackTracePrepend(stackTrace))
-				return
+				continue
 			}
 
 			vm.replace(result)
